@@ -524,6 +524,13 @@ class MemMachine(Machine):
                 return 'ldr'
             self.stores.append((a, self.get(rd)))
             return 'str'
+        if (w & 0xFFC00000) in (0xF9400000, 0xF9000000):                        # LDR / STR (immediate, unsigned offset), 64-bit
+            a = add(self.get(rn), const(f(10, 12) * 8))
+            if (w & 0xFFC00000) == 0xF9400000:
+                self.put(rd, X.ld64(a))
+                return 'ldr#'
+            self.stores.append((a, self.get(rd)))
+            return 'str#'
         return Machine.step(self, w, where)
 
 
@@ -560,7 +567,7 @@ def rule_mem_hsem(ctx, R):
             for s in range(8):
                 for modmem in (0, 1, 3):
                     for modcond in ((0, 13, 14, 15) if name == 'ISTORE' else (0,)):
-                        imms = X.MEM_IMMS if s == d or (d + s + modmem) % (3 if getattr(ctx, 'tier', 'quick') == 'thorough' else 7) == 0 else X.MEM_IMMS[5:7]
+                        imms = (X.MEM_IMMS_CONST if (modmem == 0 and (d % 3 == 0 or getattr(ctx, 'tier', 'quick') == 'thorough')) else X.MEM_IMMS[:3]) if (s == d and name != 'ISTORE') else (X.MEM_IMMS if (d + s + modmem) % (3 if getattr(ctx, 'tier', 'quick') == 'thorough' else 7) == 0 else X.MEM_IMMS[5:7])
                         for imm in imms:
                             for nlit in ((0, 64) if (d + s) % 4 == 0 else (64,)):
                                 n += 1
